@@ -1,5 +1,139 @@
 /-
-C17 — PLACEHOLDER of the sieve work package (the tables package owns this file).  The counting-sieve theorems
-live in PcProps/C17Sieve.lean, which pcv/props/c17sieve.py builds and audits on its own.
+C17 (lookup-table half) — the prime-count tables, factor tables and small generators answer every query
+exactly.  Only property theorems, non-vacuity examples and the axiom audit live here.
+(The sieve half of C17 is in PcProps/C17Sieve.lean.)
+
+Vocabulary: `Nat.primeCounting n` = π(n) (Mathlib).  `PrimeGenSpec gen` = the prime generator standing for
+`primesieve::iterator` yields exactly the primes of `[lo, hi)`, in increasing order (C18).
 -/
-import PcProps.C17Sieve
+import PcProofs.SegPi
+import PcProofs.FactorTableD
+import PcProofs.GeneratePrimes
+
+namespace Pc.C17
+
+/-- the prime test used by the generated table obligations is exact -/
+theorem isPrimeSR_correct (n : ℕ) : isPrimeSR n = true ↔ n.Prime := isPrimeSR_iff n
+
+/-- Generic lemma behind every `(count, bits)` prime table of the code base (pi_cache_, PiTable,
+    SegmentedPiTable): if word `j` holds exactly the primes of block `i0 + j` (as far as they lie below `M`),
+    the first count is π of everything before the first block and the counts are prefix sums of the popcounts,
+    then `count + popcount(bits & unset_larger[n % 240])` is π(n). -/
+theorem bitPiTable_lookup (i0 M J : ℕ) (cnt bits : ℕ → ℕ)
+    (hbase : cnt 0 = if i0 = 0 then 3 else Nat.primeCounting (240 * i0 - 1))
+    (hcnt : ∀ j, j < J → cnt (j + 1) = cnt j + popcount64 (bits j))
+    (hbits : ∀ j, j ≤ J → WordHolds (i0 + j) M (bits j))
+    (n : ℕ) (h6 : 6 ≤ n) (hlo : 240 * i0 ≤ n) (hn : n < M) (hJ : n / 240 - i0 ≤ J) :
+    cnt (n / 240 - i0) + popcount64 (bits (n / 240 - i0) &&& unsetLargerSpec (n % 240)) = Nat.primeCounting n :=
+  Pc.bitPiTable_lookup i0 M J cnt bits hbase hcnt hbits n h6 hlo hn hJ
+
+/-- the generated `unset_larger_` / `set_bit_` tables are their defining formulas -/
+theorem unsetLarger_correct (r : ℕ) (hr : r < 240) : unsetLargerTbl r = unsetLargerSpec r := unsetLargerTbl_eq r hr
+theorem setBit_correct (r : ℕ) (hr : r < 240) : setBitTbl r = setBitSpec r := setBitTbl_eq r hr
+
+/-- `PiTable::pi_cache(x) = π(x)` for every `x` below `128 * 240` — from the generated per-word obligations -/
+theorem piCache_correct (x : ℕ) (hx : x < 30720) : piCacheLookup PcGen.piCache x = Nat.primeCounting x :=
+  Pc.piCache_correct x hx
+
+/-- for every table size and every requested thread count the thread ranges of `PiTable::init` (numbers and
+    word indices) are pairwise disjoint and cover `[cache_limit, limit)` -/
+theorem piTable_ranges_disjoint (limit : ℕ) (threads : ℤ) (hl : piCacheLimit < limit) :
+    1 ≤ (piThreadParams limit threads).1 ∧ 240 ∣ (piThreadParams limit threads).2 ∧
+    (∀ n, piCacheLimit ≤ n → n < limit → ∃! t, t < (piThreadParams limit threads).1 ∧
+        (piThreadRange limit (piThreadParams limit threads).2 t).1 ≤ n ∧
+        n < (piThreadRange limit (piThreadParams limit threads).2 t).2) ∧
+    (∀ i, PcGen.piCache.size ≤ i → i < ceilDiv limit 240 → ∃! t, t < (piThreadParams limit threads).1 ∧
+        (piThreadRange limit (piThreadParams limit threads).2 t).1 / 240 ≤ i ∧
+        i < ceilDiv (piThreadRange limit (piThreadParams limit threads).2 t).2 240) :=
+  Pc.piTable_ranges_disjoint limit threads hl
+
+/-- `PiTable(max_x, threads)[n] = π(n)` for every `max_x`, every thread count and every `n ≤ max_x`
+    (in particular no uninitialised word is ever read) -/
+theorem piTable_correct (gen : PrimeGen) (hg : PrimeGenSpec gen) (maxX : ℕ) (threads : ℤ) (n : ℕ)
+    (hn : n ≤ maxX) : (PiTable.new gen maxX threads).get n = some (Nat.primeCounting n) :=
+  Pc.piTable_correct gen hg maxX threads n hn
+
+/-- after ANY history of `SegmentedPiTable::init(low, high)` calls respecting its ASSERTs (consecutive,
+    overlapping, backwards, with gaps), every query of the current segment returns π(x) -/
+theorem segPi_correct (piNoprint : ℕ → ℕ) (hpi : ∀ x, piNoprint x = Nat.primeCounting x)
+    (gen : PrimeGen) (hg : PrimeGenSpec gen) (inits : List (ℕ × ℕ)) (s : SegPi)
+    (h : SegPi.run piNoprint gen inits {} = some s) :
+    ∀ x, s.low ≤ x → x < s.high → s.get x = some (Nat.primeCounting x) :=
+  (Pc.segPi_correct piNoprint hpi gen hg inits {} s segGood_empty h).2
+
+/-- ... and no ASSERT fires along such a history (the carry-over read `pi[low - 1]` is in range) -/
+theorem segPi_init_succeeds (piNoprint : ℕ → ℕ) (hpi : ∀ x, piNoprint x = Nat.primeCounting x)
+    (gen : PrimeGen) (hg : PrimeGenSpec gen) (inits : List (ℕ × ℕ)) (s : SegPi)
+    (h : SegPi.run piNoprint gen inits {} = some s) (low high : ℕ) (hlh : low < high) (hlow : low % 240 = 0) :
+    (s.init piNoprint gen low high).isSome = true :=
+  segInit_succeeds piNoprint gen s low high (Pc.segPi_correct piNoprint hpi gen hg inits {} s segGood_empty h) hlh hlow
+
+/-- `to_index(n)` = (number of `m ≤ n` coprime to 2·3·5·7·11) - 1, from the generated `coprime_indexes_` obligations -/
+theorem ftToIndex_correct (n : ℕ) : ftToIndex n = (Nat.count C2310 (n + 1) : ℤ) - 1 := ftToIndex_eq n
+
+/-- `to_number(i)` is the `i`-th (0-based) number coprime to 2·3·5·7·11, and `to_index` inverts it -/
+theorem ftToNumber_correct (i : ℕ) :
+    C2310 (ftToNumber i) ∧ Nat.count C2310 (ftToNumber i) = i ∧ ftToIndex (ftToNumber i) = i :=
+  ⟨(ftToNumber_spec i).1, (ftToNumber_spec i).2, ftToIndex_toNumber i⟩
+
+/-- FactorTable (with the F3 repair: the `fill_n` hoisted out of the `min_m` test): for every `y ≤ max()`,
+    every thread count and every `n ≤ y` coprime to 2·3·5·7·11, `mu_lpf(to_index(n))` has been written and is
+    `T_MAX - 1` for 1, `T_MAX` for primes, 0 if μ(n) = 0, `lpf - 1` if μ(n) = 1, `lpf` if μ(n) = -1
+    (`ftSpec`, with Mathlib's `ArithmeticFunction.moebius` and `Nat.minFac`). On the pinned tree this fails
+    for `13 ≤ y < 169` (F3): the model of the pinned constructor leaves those entries `none`. -/
+theorem factorTable_correct (gen : PrimeGen) (hg : PrimeGenSpec gen) (tmax : ℕ) (htm : 3 ≤ tmax) (hodd : tmax % 2 = 1)
+    (y threads : ℤ) (hy : y ≤ ftMax tmax) :
+    ∃ a, factorTableNew gen tmax y threads = some a ∧
+      a.size = (ftToIndex (max 1 y).toNat).toNat + 1 ∧
+      ∀ n, C2310 n → n ≤ (max 1 y).toNat → a[(ftToIndex n).toNat]? = some (some (ftSpec tmax n)) :=
+  Pc.factorTable_correct gen hg tmax htm hodd y threads hy
+
+/-- FactorTableD: for every `z ≤ max()`, every `y`, every thread count and every `n ≤ z` coprime to 2·3·5·7·11,
+    `is_leaf(to_index(n))` is 0 when `n` has a prime factor `> y` (`ftdSpec` with `start = max(13, y + 1)`; all
+    prime factors of such `n` are `≥ 13`), else the FactorTable encoding. -/
+theorem factorTableD_correct (gen : PrimeGen) (hg : PrimeGenSpec gen) (tmax : ℕ) (htm : 3 ≤ tmax) (hodd : tmax % 2 = 1)
+    (y z threads : ℤ) (hz : z ≤ ftMax tmax) :
+    ∃ a, factorTableDNew gen tmax y z threads = some a ∧
+      a.size = (ftToIndex (max 1 z).toNat).toNat + 1 ∧
+      ∀ n, C2310 n → n ≤ (max 1 z).toNat →
+        a[(ftToIndex n).toNat]? = some (some (ftdSpec tmax (max (13 : ℤ) (y + 1)).toNat n)) :=
+  Pc.factorTableD_correct gen hg tmax htm hodd y z threads hz
+
+/-- `generate_pi(max)[i] = π(i)` for every `max` and `i ≤ max` -/
+theorem generatePi_correct (mx i : ℕ) (hi : i ≤ mx) : (generatePi mx)[i]? = some (Nat.primeCounting i) :=
+  Pc.generatePi_correct mx i hi
+
+/-- `generate_lpf(max)[i]` = least prime factor of `i` (`lpf[0] = 1`, `lpf[1] = INT32_MAX` by convention) -/
+theorem generateLpf_correct (mx i : ℕ) (hi : i ≤ mx) :
+    (generateLpf mx)[i]? = some (if i = 0 then 1 else if i = 1 then int32Max else i.minFac) :=
+  Pc.generateLpf_correct mx i hi
+
+/-! non-vacuity (these are tests, labelled as such): the generator hypothesis is satisfiable, and concrete values -/
+example : PrimeGenSpec (fun lo hi => (List.range' lo (hi - lo)).filter (fun p => decide p.Prime)) := by
+  intro lo hi
+  refine ⟨List.Pairwise.filter _ List.pairwise_lt_range', fun p => ?_⟩
+  simp only [List.mem_filter, List.mem_range'_1, decide_eq_true_eq]
+  constructor
+  · rintro ⟨⟨h1, h2⟩, h3⟩; exact ⟨h1, by omega, h3⟩
+  · rintro ⟨h1, h2, h3⟩; exact ⟨⟨h1, by omega⟩, h3⟩
+example : piCacheLookup PcGen.piCache 1000 = 168 := by decide +kernel
+example : piCacheLookup PcGen.piCache 30719 = 3314 := by decide +kernel
+example : Nat.primeCounting 1000 = 168 := (piCache_correct 1000 (by norm_num)).symm.trans (by decide +kernel)
+
+end Pc.C17
+
+#print axioms Pc.C17.isPrimeSR_correct
+#print axioms Pc.C17.bitPiTable_lookup
+#print axioms Pc.C17.unsetLarger_correct
+#print axioms Pc.C17.setBit_correct
+#print axioms Pc.C17.piCache_correct
+#print axioms Pc.C17.piTable_ranges_disjoint
+#print axioms Pc.C17.piTable_correct
+#print axioms Pc.C17.segPi_correct
+#print axioms Pc.C17.segPi_init_succeeds
+#print axioms Pc.C17.ftToIndex_correct
+#print axioms Pc.C17.ftToNumber_correct
+#print axioms Pc.C17.factorTable_correct
+#print axioms Pc.C17.factorTableD_correct
+#print axioms Pc.C17.generatePi_correct
+#print axioms Pc.C17.generateLpf_correct
